@@ -145,6 +145,8 @@ func head4(b []byte) []byte {
 	return b
 }
 
+var c07pNearCap = sim.RegStat("probe:c07-frame-ends-within-20-bytes-of-a-buffer-size")
+
 func runC07(c *Ctx) {
 	w := c.W
 	max := w.Pick(1000, 125, 126, 65535, 65536, 100000)
@@ -153,6 +155,12 @@ func runC07(c *Ctx) {
 	nFrames := w.Range(1, c.Deep(8))
 	for i := 0; i < nFrames; i++ {
 		size := w.Pick(5, 0, 1, 125, 126, 127, 300, max)
+		if w.Chance(1, 6) {
+			// the frame ends within a few bytes of the end of the read buffer (4096 to begin with; once a longer
+			// frame has come through it is larger, and how much larger is the buffer's business)
+			size = w.Pick(4096, 4096, 8192, 2*4096+300) - w.Range(0, 20)
+			w.Stat(c07pNearCap)
+		}
 		if size > max {
 			size = max
 		}
